@@ -26,9 +26,18 @@ type recWriter struct {
 	calls [][]byte
 	fail  int // fail the n-th call (1-based), 0 = never
 	err   error
+	// failNext: the next call sends nothing, returns this error and is not recorded
+	failNext error
+	refused  int
 }
 
 func (w *recWriter) Write(p []byte) (int, error) {
+	if w.failNext != nil {
+		err := w.failNext
+		w.failNext = nil
+		w.refused++
+		return 0, err
+	}
 	if w.fail > 0 && len(w.calls)+1 == w.fail {
 		w.calls = append(w.calls, nil)
 		return 0, w.err
